@@ -15,6 +15,11 @@ import (
 // re-entrant observers: what the callback does besides counting
 var reKinds = []string{"registers-observer", "reads-getters", "calls-setvalues", "triggers-reload"}
 
+type fileVerT struct {
+	text     string
+	ns, size int64
+}
+
 // raceParser wraps the real parser: right after a Read (i.e. after reload has taken the file's stamp and
 // read its content) it runs a hook once — an external edit landing in the middle of the reload.
 type raceParser struct {
@@ -116,12 +121,13 @@ func (h *harness) streamHistory(n, maxSteps int) {
 				h.add(c)
 			}
 		}
+		isDir := false     // a directory stands where the file should be
+		var away *fileVerT // the file was deleted / renamed away: what it was (for a stamp-preserving restore)
+		awayRenamed := false
+		bak := path + ".bak"
 		deferE := false // an edit made from inside a reload: its model line goes after that reload's line
 		var pendingE []check
-		type fileVer struct {
-			text     string
-			ns, size int64
-		}
+		type fileVer = fileVerT
 		var racePre *fileVer // what the file was when the racing reload looked at it
 		edit := func(recreate bool) {
 			var text string
@@ -158,10 +164,14 @@ func (h *harness) streamHistory(n, maxSteps int) {
 					break
 				}
 			}
-			if recreate {
-				os.Remove(path)
-				h.rep.Count("history:recreate")
+			if recreate || isDir {
+				os.RemoveAll(path)
+				if recreate {
+					h.rep.Count("history:recreate")
+				}
+				isDir = false
 			}
+			away = nil
 			writeFile(path, text)
 			mode := "natural"
 			if !h.rng.Chance(15) {
@@ -316,7 +326,8 @@ func (h *harness) streamHistory(n, maxSteps int) {
 		// the model registers "verif" after the pre-observers but before the first reload: same order of ids? ids are
 		// only labels; counts are compared per id.
 		var prevVer [2]int64 = [2]int64{-1, -1}
-		prevRaced := false // the previous reload had an edit landing in its middle
+		prevRaced := false   // the previous reload had an edit landing in its middle
+		prevMissing := false // the previous reload found no file
 		prevCount := 0
 		afterReload := func() {
 			logOp("reload", "notified", ce.obs.count)
@@ -343,6 +354,8 @@ func (h *harness) streamHistory(n, maxSteps int) {
 					switch {
 					case prevRaced:
 						key = "reload:edit-during-reload-lost"
+					case prevMissing:
+						key = "reload:restored-file-not-loaded"
 					case prevVer[0] >= 0 && curNs <= prevVer[0]:
 						key = "reload:not-newer-mtime-edit"
 					case prevVer[0] >= 0 && prevVer[0]/1e9 == curNs/1e9:
@@ -378,6 +391,12 @@ func (h *harness) streamHistory(n, maxSteps int) {
 					}
 				}
 				prevVer = ver
+				prevMissing = false
+			} else {
+				// the file was absent at this reload: whatever appears later must be loaded, even with the
+				// stamp (mtime, size) the configuration had seen before the file went away
+				prevVer = [2]int64{-1, -1}
+				prevMissing = true
 			}
 			prevRaced = racePre != nil
 			// every registered observer hears exactly what the reference observer hears; a replaced one nothing
@@ -502,6 +521,29 @@ func (h *harness) streamHistory(n, maxSteps int) {
 			}
 			afterReload()
 		}
+		restore := func() {
+			if exists || away == nil {
+				return
+			}
+			// stamp-preserving restore: rename back, or the same bytes with the old mtime (cp -p, tar x, rsync -t)
+			if awayRenamed {
+				os.Rename(bak, path)
+				logOp("rename-back")
+				h.rep.Count("history:rename-back")
+			} else {
+				writeFile(path, away.text)
+				t := time.Unix(0, away.ns)
+				os.Chtimes(path, t, t)
+				logOp("restore-same-bytes-same-mtime")
+				h.rep.Count("history:restore-same-stamp")
+			}
+			curText = away.text
+			curNs, curSize = statNs(path)
+			exists = true
+			away = nil
+			logOp("file-restored", "text", curText, "mtime_ns", curNs)
+			add(check{line: fmt.Sprintf("E %d %s", curNs, encStr(curText)), want: "ok"})
+		}
 		svN := 0
 		doSetValues := func() {
 			if dead || !exists || !wf {
@@ -571,7 +613,7 @@ func (h *harness) streamHistory(n, maxSteps int) {
 			newText := string(nb)
 			// the property, directly: the write merges into what the FILE holds at the time of the write
 			for _, b := range evalWriteProperty(old, newText, kvs) {
-				key := map[string]string{"merge": "writeback:other-key-not-file-value", "comment": "writeback:comment-line-rewritten", "order": "writeback:order"}[b[0]]
+				key := map[string]string{"merge": "writeback:other-key-not-file-value", "comment": "write-back:pass-through-line", "order": "writeback:order"}[b[0]]
 				h.rep.Fail("property", key,
 					"SetValues in the middle of a history (external edits since the last reload): "+b[1],
 					map[string]interface{}{"history": hs, "file_before": old, "kvs": kvs, "file_after": newText})
@@ -592,19 +634,62 @@ func (h *harness) streamHistory(n, maxSteps int) {
 		lateN := 0
 		for s := 0; s < steps && !hung; s++ {
 			switch x := h.rng.Intn(100); {
-			case x < 34:
+			case x < 26:
 				edit(false)
-			case x < 39 && exists:
+			case x < 30 && exists:
 				edit(true) // deleted and created again
-			case x < 44 && exists:
-				os.Remove(path)
-				exists = false
-				logOp("delete")
-				h.rep.Count("history:delete")
+			case x < 35 && exists:
+				// the file goes away: deleted, or renamed away (a later restore keeps its stamp)
+				away = &fileVerT{curText, curNs, curSize}
+				awayRenamed = !isDir && h.rng.Chance(50)
+				if isDir {
+					away = nil
+				}
+				if awayRenamed {
+					os.Remove(bak)
+					os.Rename(path, bak)
+					logOp("rename-away")
+					h.rep.Count("history:rename-away")
+				} else {
+					os.RemoveAll(path)
+					logOp("delete")
+					h.rep.Count("history:delete")
+				}
+				exists, isDir = false, false
 				add(check{line: "D", want: "ok"})
-			case x < 60:
+				if h.rng.Chance(60) {
+					reload() // the configuration notices that the file is missing
+					if h.rng.Chance(50) && !hung {
+						restore() // … and the same file comes back with its old stamp
+						reload()
+					}
+				}
+			case x < 45 && !exists && away != nil:
+				restore()
+			case x < 38 && exists && !isDir:
+				// truncated to nothing (and usually rewritten by a later edit)
+				os.Truncate(path, 0)
+				curText = ""
+				curNs, curSize = statNs(path)
+				logOp("truncate", "mtime_ns", curNs)
+				h.rep.Count("history:truncate")
+				add(check{line: fmt.Sprintf("E %d %s", curNs, encStr("")), want: "ok"})
+			case x < 40 && !wf:
+				// a directory in place of the file: Stat succeeds, reading fails
+				os.RemoveAll(path)
+				os.Mkdir(path, 0o755)
+				isDir, exists, away = true, true, nil
+				curNs, curSize = statNs(path)
+				if curSize < 1 {
+					curSize = 1
+				}
+				curText = "=" + strings.Repeat(" ", int(curSize)-1) // unreadable, with the directory's size
+				logOp("directory-in-place-of-file", "mtime_ns", curNs, "size", curSize)
+				h.rep.Count("history:directory")
+				add(check{line: fmt.Sprintf("E %d %s", curNs, encStr(curText)), want: "ok"})
+			case x < 62:
 				reload()
-			case x < 66:
+			case x < 68:
 				// an external edit lands in the middle of the reload: after reload took the stamp and read the file
 				if exists && !dead && reKind != "triggers-reload" { // (a nested reload would legitimately load the racing edit)
 					if _, _, err := libRead(curText); err == nil {
@@ -618,7 +703,7 @@ func (h *harness) streamHistory(n, maxSteps int) {
 					}
 				}
 				reload()
-			case x < 74:
+			case x < 76:
 				doSetValues()
 				if h.rng.Chance(30) {
 					doSetValues() // twice in a row
